@@ -102,7 +102,8 @@ reg(Spec('C18', ['c18:C18'],
 reg(Spec('C19', ['c19:C19'],
          quick=[('CLOSE', 2500), ('CORRUPT', 1000), ('ADV', 500)],
          thorough=[('CLOSE', 50000), ('CORRUPT', 20000), ('ADV', 20000), ('RACE', 10000)],
-         overrides={'CLOSE': {'settings_bias': {4: [3, 50, 1024, 65535]}, 'ops_boost': {'data': 2}}},
+         overrides={'CLOSE': {'settings_bias': {4: [3, 50, 1024, 65535]}, 'ops_boost': {'data': 2}}, 'CORRUPT': {'bad_preface': 0.08},
+                    'ADV': {'bad_preface': 0.05}},
          rule=R_RUN + 'non-trivial = >= 3 calls and >= 1 received frame after the connection closed' + R_DISTINCT))
 reg(Spec('C26', ['c26:C26'],
          quick=[('DUPLEX', 1200), ('CORRUPT', 1200), ('ADV', 1200)],
